@@ -65,13 +65,13 @@ def run(ctx: Context) -> None:
     by_table = {}
     for c in sites:
         a0 = norm_text(c.args[0]) if c.args else ''
-        tab = a0.replace('topology.', '').replace('_connectivity', '') if a0.startswith('topology.') and a0.endswith('_connectivity') else None
+        tab = a0.replace('self.topology.', '').replace('_connectivity', '') if a0.startswith('self.topology.') and a0.endswith('_connectivity') else None
         ctx.check('R09.1', tab in tables, "the first argument is one of the topology's connectivity variables", ac, c, construct=f"update_connectivity({a0}, ...)")
         if tab not in tables:
             continue
         by_table[tab] = c
         a, b = tab.split('_')
-        ctx.check('R09.1', len(c.args) >= 2 and norm_text(c.args[1]) == f"topology.{tab}_array", f"{tab}: the array re-indexed is the normalised array of the same table", ac, c,
+        ctx.check('R09.1', len(c.args) >= 2 and norm_text(c.args[1]) == f"self.topology.{tab}_array", f"{tab}: the array re-indexed is the normalised array of the same table", ac, c,
                   construct=f"{tab}: old_array={norm_text(c.args[1]) if len(c.args) > 1 else '?'}")
         row = c.args[2] if len(c.args) > 2 else kwarg(c, 'row_indexes')
         col = c.args[3] if len(c.args) > 3 else kwarg(c, 'column_values')
@@ -81,7 +81,7 @@ def run(ctx: Context) -> None:
                   construct=f"{tab}: column_values={norm_text(col) if col is not None else '?'} (from new_{mask_kind(col) if col is not None else '?'}_index)")
         prim = kwarg(c, 'primary_dimension') or (c.args[4] if len(c.args) > 4 else None)
         want = reader_primary(ctx, tab)
-        ctx.check('R09.1', prim is not None and want is not None and norm_text(prim) == f"topology.{want}",
+        ctx.check('R09.1', prim is not None and want is not None and norm_text(prim) == f"self.topology.{want}",
                   f"{tab}: the primary dimension is the one the topology normalises this table with ({want})", ac, c,
                   construct=f"{tab}: primary_dimension={norm_text(prim) if prim is not None else '?'}; reader uses {want}")
         fv = kwarg(c, 'fill_value') or (c.args[5] if len(c.args) > 5 else None)
@@ -118,7 +118,7 @@ def run(ctx: Context) -> None:
         he = [n for n in walk_no_nested(ac.node) if isinstance(n, ast.Assign) and norm_text(n.targets[0]) == 'has_edges']
         ctx.check('R09.6', not he or norm_text(he[0].value) == EDGE, "a local that stands for 'the clip mask carries an edge table' means exactly that", ac, he[0] if he else ac.node)
         tv = [n for n in walk_no_nested(ac.node) if isinstance(n, (ast.Assign, ast.AnnAssign)) and norm_text(n.targets[0] if isinstance(n, ast.Assign) else n.target) == 'topology_variables']
-        ok = bool(tv) and norm_text(tv[0].value) == '[topology.mesh_variable]'
+        ok = bool(tv) and norm_text(tv[0].value) == '[self.topology.mesh_variable]'
         dsc = [c for c in calls_in(ac) if (callee(ctx, ac, c) or '').endswith('xarray.Dataset')]
         ok2 = any(norm_text(kwarg(c, 'data_vars') or ast.Constant(None)) == '{variable.name: variable for variable in topology_variables}' for c in dsc)
         ctx.check('R09.6', ok and ok2, "the mesh variable and all re-indexed tables are written as one topology dataset", ac, dsc[0] if dsc else ac.node,
@@ -353,7 +353,7 @@ def run(ctx: Context) -> None:
             co = kwarg(dsc[0], 'coords')
             co = ctx.flow(mc).resolve(co) if co is not None else None
             ok = isinstance(co, ast.Dict) and {norm_text(k): norm_text(v) for k, v in zip(co.keys, co.values)} == {
-                'topology.latitude_name': 'topology.latitude.copy()', 'topology.longitude_name': 'topology.longitude.copy()'}
+                'self.topology.latitude_name': 'self.topology.latitude.copy()', 'self.topology.longitude_name': 'self.topology.longitude.copy()'}
         ctx.check('R09.5', ok, "the CF clip mask carries copies of latitude and longitude under their own names", mc, dsc[0] if dsc else mc.node)
         am = ctx.func(f"{ARAKAWA}.ArakawaC.make_clip_mask")
         cm = [c for c in calls_in(am) if callee(ctx, am, c) == f"{ARAKAWA}.c_mask_from_centres"]
